@@ -192,10 +192,8 @@ def ideal_primitives(repo: Repo, R, rule: str):
         raise AnalysisError("idiom-unknown: ideal-primitive name table (`<table>[inst.of.prim.name]`) not found as a dict literal in the exporter")
     emap = er[0]
     fep = repo.func(F_EXPORT, "export_primitive_params")
-    rename = None
-    for n in au.walk_no_nested(fep.node):
-        if isinstance(n, ast.Return) and isinstance(n.value, ast.Call) and dotted(n.value.func) == "dict" and n.value.keywords:
-            rename = {k.arg: ast.unparse(k.value).split(".")[-1] for k in n.value.keywords}
+    rm = pf.returned_mapping(fep)
+    rename = {k: v.split(".")[-1] for k, v in rm.items()} if rm else None
     for name, p in sorted(prims.items()):
         if p["primtype"] != "IDEAL":
             continue
